@@ -92,7 +92,14 @@ class DependentType(type):
         raise NotImplementedError()
 
     def codegen(self):
-        return CodeGen("{this}.check({arg})", this=self)
+        cg = CodeGen("{this}.check({arg})", this=self)
+        if is_dependent(self.bound):
+            # The argument's class says nothing about a bound that itself
+            # depends on the value: check the bound first
+            return combine(
+                "({} and {})", [generate_checking_code(self.bound), cg]
+            )
+        return cg
 
     def __type_order__(self, other):
         if isinstance(other, DependentType):
